@@ -159,6 +159,9 @@ func main() {
 		case <-time.After(4 * time.Minute):
 			_ = cmd.Process.Kill()
 			fmt.Fprintf(os.Stderr, "check: verif-sim %v did not finish within 4 minutes (a real block outside the simulator?)\n", args)
+			if len(args) > 1 && args[1] == "shrink" {
+				return 98 // counted as inconclusive by the caller
+			}
 			exit(2)
 		}
 		return 2
